@@ -209,7 +209,8 @@ def jump_summary(F, fid, next_name, state_names):
         if x.get("k") == "asg":
             t = _expr_txt(x)
         elif x.get("k") == "if":
-            t = "if " + _expr_txt(x["c"])
+            from ..ir import truthy
+            t = "if " + _expr_txt(truthy(x["c"]))
         elif x.get("k") == "call" and "f" in x and F.fn(x["f"])["name"] == next_name:
             t = "next()"
         else:
@@ -311,7 +312,8 @@ def check_unit_interval(ctx, F):
         if len(rets) != 1:
             bad = "more than one return"
         else:
-            e = strip(rets[0]["e"])
+            from ..ir import const_local_defs, subst_locals
+            e = strip(subst_locals(rets[0]["e"], const_local_defs(b["body"])))      # `const uint32_t bits = ...; return reinterpret<float>(bits) - 1.0f;`
             ok = False
             if e.get("k") == "bin" and e["op"] == "-":
                 one = strip(e["rhs"])
